@@ -5,7 +5,10 @@ package vfe2e
 // flight together (so the 6 s of a silent upstream are paid once per batch).
 
 import (
+	"crypto/tls"
 	"fmt"
+	"os"
+	"sort"
 	"strings"
 	"sync"
 	"testing"
@@ -327,5 +330,144 @@ func TestVfC03(t *testing.T) {
 				return map[string]any{"listener": c.listener, "outcome": c.outcome, "unsupported": c.unsupported, "rcode": r.Rcode(), "took_ms": c.took.Milliseconds(), "query": vfkit.Hex(c.query)}
 			})
 		}
+	})
+}
+
+// TestVfC03Pipelined: the same "exactly one response per query" oracle for queries that share one stream connection and
+// arrive together, more of them than the listener's per-connection concurrency limit allows in flight. Which of them are
+// over the limit is up to the scheduler, so REFUSED is accepted for any query of a batch that exceeds the limit - but
+// every query still gets exactly one response with its own ID and question, while the client keeps the connection open.
+func TestVfC03Pipelined(t *testing.T) {
+	st := vfkit.Stats("TestVfC03Pipelined", "k in 2..30 queries written with one Write (or in 2-3 chunks) on one tcp / gnet / tls connection to a proxy with max_concurrent_queries in {1,2,4}, upstream replies delayed 0-400 ms, some upstreams silent or closing; oracle: exactly one response per query ID within 8 s, own question echoed, rcode = the expected one or REFUSED when k exceeds the limit; non-trivial = k > limit")
+	defer vfkit.Flush()
+	block := NextIPBlock()
+	var delays sync.Map // first label -> script
+	type script struct {
+		delay   time.Duration
+		outcome string
+	}
+	up, err := StartUpstream("udp", "up", block+"2", 0, nil, func(q *UpQuery) UpAction {
+		if q.Msg.Err != nil || len(q.Msg.Q) != 1 {
+			return UpAction{}
+		}
+		v, ok := delays.Load(strings.ToLower(string(q.Msg.Q[0].Name[0])))
+		if !ok {
+			return UpAction{}
+		}
+		sc := v.(script)
+		switch sc.outcome {
+		case "silence":
+			return UpAction{}
+		case "servfail":
+			return UpAction{Reply: EncodeMsg(KeyedAnswer(q.Msg, "c03p", 0, 60, 2)), Delay: sc.delay}
+		}
+		return UpAction{Reply: EncodeMsg(KeyedAnswer(q.Msg, "c03p", 0, 60, 0)), Delay: sc.delay}
+	})
+	if err != nil {
+		t.Fatal(err)
+	}
+	defer up.Close()
+	proxies := map[int]*Proxy{}
+	ips := map[int]string{}
+	for i, mc := range []int{1, 2, 4} {
+		pip := block + itoa(10+i)
+		cfg := &Config{Servers: StdServers(pip, []string{"tcp", "gnet", "tls"}, ""), Upstreams: []UpstreamCfg{{Tag: "up", Addr: up.Addr()}}, Rules: []Rule{{Forward: "up"}}}
+		for j := range cfg.Servers {
+			cfg.Servers[j].Tcp = &TcpCfg{MaxConcurrentQueries: mc}
+		}
+		p, err := StartProxy(cfg.YAML(), nil, ProxyOpts{})
+		if err != nil {
+			t.Fatal(err)
+		}
+		defer p.Cleanup()
+		proxies[mc], ips[mc] = p, pip
+	}
+	caseNo := 0
+	rapid.Check(t, func(t *rapid.T) {
+		caseNo++
+		listener := rapid.SampledFrom([]string{"tcp", "gnet", "tls"}).Draw(t, "listener")
+		mc := rapid.SampledFrom([]int{1, 2, 4}).Draw(t, "maxConcurrent")
+		k := rapid.IntRange(2, 30).Draw(t, "k")
+		withSilence := rapid.IntRange(0, 4).Draw(t, "withSilence") == 0
+		type qi struct {
+			id      uint16
+			name    vfkit.Name
+			outcome string
+		}
+		qs := make([]qi, k)
+		var stream []byte
+		var bounds []int
+		for i := range qs {
+			label := fmt.Sprintf("p%dq%dx%d", caseNo, i, os.Getpid())
+			oc := rapid.SampledFrom([]string{"reply", "reply", "reply", "servfail"}).Draw(t, "outcome")
+			if withSilence && rapid.IntRange(0, 5).Draw(t, "silent") == 0 {
+				oc = "silence"
+			}
+			delays.Store(label, script{delay: time.Duration(rapid.SampledFrom([]int{0, 5, 50, 400}).Draw(t, "delayMs")) * time.Millisecond, outcome: oc})
+			defer delays.Delete(label)
+			name := vfkit.Name{[]byte(label), []byte("c03p"), []byte("test")}
+			qs[i] = qi{id: uint16(caseNo*64 + i), name: name, outcome: oc}
+			bounds = append(bounds, len(stream))
+			stream = append(stream, frame(Query(qs[i].id, name, 1, 1, false))...)
+		}
+		var cuts []int
+		for i := rapid.IntRange(0, 2).Draw(t, "chunks"); i > 0; i-- {
+			cuts = append(cuts, bounds[rapid.IntRange(0, len(bounds)-1).Draw(t, "cutAtFrame")])
+		}
+		sort.Ints(cuts)
+		var tcfg *tls.Config
+		if listener == "tls" {
+			tcfg = &tls.Config{InsecureSkipVerify: true}
+		}
+		c, err := DialStream("", fmt.Sprintf("%s:%d", ips[mc], ListenerPorts[listener]), tcfg, 3*time.Second)
+		if err != nil {
+			t.Fatalf("dial %s: %v", listener, err)
+		}
+		defer c.Close()
+		start := time.Now()
+		if err := c.WriteSegments(stream, cuts, time.Millisecond); err != nil {
+			t.Fatalf("write: %v", err)
+		}
+		frames, rest, closed := c.ReadFrames(k, 8500*time.Millisecond)
+		took := time.Since(start)
+		desc := fmt.Sprintf("listener=%s max_concurrent=%d k=%d chunks at %v", listener, mc, k, cuts)
+		if len(frames) != k {
+			answered := map[uint16]bool{}
+			for _, f := range frames {
+				answered[f.Msg.ID] = true
+			}
+			var missing []string
+			for _, q := range qs {
+				if !answered[q.id] {
+					missing = append(missing, fmt.Sprintf("%d(%s)", q.id, q.outcome))
+				}
+			}
+			t.Fatalf("%d responses for %d pipelined queries after %v (connection closed by the proxy: %v, stray octets %d); unanswered: %v; %s\n%s", len(frames), k, took.Round(time.Millisecond), closed, len(rest), missing, desc, tail(proxies[mc].Stderr(), 600))
+		}
+		byID := map[uint16]qi{}
+		for _, q := range qs {
+			byID[q.id] = q
+		}
+		seen := map[uint16]bool{}
+		for _, f := range frames {
+			q, ok := byID[f.Msg.ID]
+			if !f.Msg.Clean() || !ok || seen[f.Msg.ID] {
+				t.Fatalf("response %s is malformed, unasked or a duplicate; %s", f.Msg.Msg.String(), desc)
+			}
+			seen[f.Msg.ID] = true
+			if len(f.Msg.Q) != 1 || !f.Msg.Q[0].Name.EqualFold(q.name) || !f.Msg.Has(vfkit.BitQR) || !f.Msg.Has(vfkit.BitRA) || !f.Msg.Has(vfkit.BitRD) {
+				t.Fatalf("response to ID %d does not echo its query (question/QR/RA/RD); %s", q.id, desc)
+			}
+			want := map[string]int{"reply": 0, "servfail": 2, "silence": 2}[q.outcome]
+			if rc := f.Msg.Rcode(); rc != want && !(rc == 5 && k > mc) {
+				t.Fatalf("ID %d (%s): rcode %d, expected %d (or REFUSED only when k exceeds the limit); %s", q.id, q.outcome, rc, want, desc)
+			}
+		}
+		if cr := proxies[mc].Crashed(); cr != "" {
+			t.Fatalf("proxy crashed: %s", cr)
+		}
+		st.Case(vfkit.Fingerprint(stream, listener, mc), k > mc, []string{"listener=" + listener, fmt.Sprintf("limit=%d", mc)}, func() any {
+			return map[string]any{"listener": listener, "k": k, "max_concurrent": mc, "took_ms": took.Milliseconds()}
+		})
 	})
 }
